@@ -54,7 +54,7 @@ def copy_list_of_objects(eng, st, lst, node):
     j = z3.Int(f"j!{next(_fresh)}")
     elems = z3.Lambda([j], base + 1 + j)
     out = eng.new_list(st, es, n, elems)
-    _record(eng, "copy.deepcopy(list of descriptors): fresh list of fresh objects, field values equal, numpy transition arrays shared as immutable values (trusted; requires the list to hold distinct objects)")
+    _record(eng, "copy.deepcopy(list of descriptors): fresh list of fresh objects, field values equal; the numpy transition array of a copy is modelled as POSSIBLY SHARED with the original's (over-approximation of aliasing: any in-place write to it then fails the ownership frame obligation) (trusted; requires the list to hold distinct objects)")
     return V(("list", es, False), out.t)
 
 
@@ -68,12 +68,12 @@ def deepcopy(eng, st, node, a, kw, k, ctx):
         nv = V(Ref("MolGen"), new)
         lst = eng.load_field(st, v.t, "MolGen", "bond_descriptors")
         cp = copy_list_of_objects(eng, st, lst, node)
-        eng.store_field(st, new, "MolGen", "bond_descriptors", cp, node)
-        eng.store_field(st, new, "MolGen", "_mol", eng.load_field(st, v.t, "MolGen", "_mol"), node)
+        eng.store_field(st, new, "MolGen", "bond_descriptors", cp, node, init=True)
+        eng.store_field(st, new, "MolGen", "_mol", eng.load_field(st, v.t, "MolGen", "_mol"), node, init=True)
         g = eng.load_field(st, v.t, "MolGen", "graph")
         ng = eng.new_object(st, "NxGraph", GEN)
-        eng.store_field(st, ng, "NxGraph", "val", eng.load_field(st, g.t, "NxGraph", "val"), node)
-        eng.store_field(st, new, "MolGen", "graph", V(Ref("NxGraph"), ng), node)
+        eng.store_field(st, ng, "NxGraph", "val", eng.load_field(st, g.t, "NxGraph", "val"), node, init=True)
+        eng.store_field(st, new, "MolGen", "graph", V(Ref("NxGraph"), ng), node, init=True)
         _record(eng, "copy.deepcopy(MolGen): fresh MolGen with a fresh descriptor list of fresh copies, equal RDKit molecule value and graph value (trusted)")
         return k(st, nv)
     raise Unsupported(f"deepcopy of {v}")
@@ -120,7 +120,7 @@ def combine(eng, st, node, a, kw, k, ctx):
 @external("Chem.EditableMol")
 def editable(eng, st, node, a, kw, k, ctx):
     o = eng.new_object(st, "EditableMol", GEN)
-    eng.store_field(st, o, "EditableMol", "val", a[0], node)
+    eng.store_field(st, o, "EditableMol", "val", a[0], node, init=True)
     return k(st, V(Ref("EditableMol"), o))
 
 
@@ -192,7 +192,7 @@ def disjoint_union(eng, st, node, a, kw, k, ctx):
     u = uf("gunion")(v1.t, v2.t)
     graph_union_axioms(st, u, v1.t, v2.t)
     o = eng.new_object(st, "NxGraph", GEN)
-    eng.store_field(st, o, "NxGraph", "val", V(GV, u), node)
+    eng.store_field(st, o, "NxGraph", "val", V(GV, u), node, init=True)
     st.events.append(("gunion", {"new": o, "n1": uf("gnodes")(v1.t), "n2": uf("gnodes")(v2.t), "u": u}))
     _record(eng, "nx.disjoint_union(G, H): nodes of G keep 0..n-1, nodes of H become n..n+m-1 in order; node, edge and component counts add up (trusted)")
     return k(st, V(Ref("NxGraph"), o))
@@ -224,3 +224,67 @@ def addhs(eng, st, node, a, kw, k, ctx):
     st.assume(uf("natoms")(m) >= uf("natoms")(a[0].t))
     _record(eng, "Chem.AddHs returns a molecule with at least the atoms of its argument (trusted)")
     return k(st, V(MOL, m))
+
+
+# ------------------------------------------------------------------ RDKit / networkx pieces of MolGen.__init__
+R.SCRATCH_OPAQUES |= {"ParserParams", "Fingerprint"}
+from .specs import ufunc as _ufunc
+_ufunc("smiles_mol", [STR], Opaque("Mol"))        # Chem.MolFromSmiles as a function of the text
+_ufunc("gaddnode", [Opaque("GraphVal")], Opaque("GraphVal"))
+GEMPTY = z3.Int("GEMPTY_GRAPH")
+
+
+@external("Chem.SmilesParserParams")
+def parser_params(eng, st, node, a, kw, k, ctx):
+    return k(st, V(Opaque("ParserParams"), fresh("pp", z3.IntSort())))
+
+
+@external("Chem.MolFromSmiles")
+def mol_from_smiles(eng, st, node, a, kw, k, ctx):
+    txt = lift(a[0])
+    m = uf("smiles_mol")(txt.t)
+    st.assume(m >= 1)
+    st.assume(uf("natoms")(m) >= 0)
+    _record(eng, "Chem.MolFromSmiles(text) is a function of the text and returns a molecule (the fragment SMILES of a token parses: checked by the bounded C05 driver) (trusted)")
+    return k(st, V(MOL, m))
+
+
+def _noop_may_raise(what):
+    def h(eng, st, node, a, kw, k, ctx):
+        sb = st.fork()
+        sb.assume(fresh("rdkit_fail", z3.BoolSort()))
+        eng.throw(sb, "ValueError", node, ctx)
+        _record(eng, what)
+        return k(st, V(INT, fresh("rc", z3.IntSort())))
+    return h
+
+
+external("AllChem.EmbedMolecule")(_noop_may_raise("AllChem.EmbedMolecule / UFFOptimizeMolecule only write atom coordinates (conformer), which no contract mentions; they may raise (trusted)"))
+external("AllChem.UFFOptimizeMolecule")(_noop_may_raise("AllChem.EmbedMolecule / UFFOptimizeMolecule only write atom coordinates (conformer), which no contract mentions; they may raise (trusted)"))
+
+
+@external("_RDKGEN.GetFingerprint")
+def fingerprint(eng, st, node, a, kw, k, ctx):
+    return k(st, V(Opaque("Fingerprint"), fresh("fp", z3.IntSort())))
+
+
+@external("nx.Graph")
+def nx_graph(eng, st, node, a, kw, k, ctx):
+    o = eng.new_object(st, "NxGraph", GEN)
+    for f_, v_ in (("gnodes", 0), ("gedges", 0), ("gcomps", 0)):
+        st.assume(uf(f_)(GEMPTY) == v_)
+    eng.store_field(st, o, "NxGraph", "val", V(GV, GEMPTY), node, init=True)
+    _record(eng, "nx.Graph() is the empty graph; Graph.add_node of a new node adds one node and one component (trusted)")
+    return k(st, V(Ref("NxGraph"), o))
+
+
+@external("NxGraph.add_node")
+def g_add_node(eng, st, node, a, kw, k, ctx):
+    g = a[0]
+    cur = eng.load_field(st, g.t, "NxGraph", "val")
+    new = uf("gaddnode")(cur.t)
+    st.assume(uf("gnodes")(new) == uf("gnodes")(cur.t) + 1)
+    st.assume(uf("gcomps")(new) == uf("gcomps")(cur.t) + 1)
+    st.assume(uf("gedges")(new) == uf("gedges")(cur.t))
+    eng.store_field(st, g.t, "NxGraph", "val", V(GV, new), node)
+    return k(st, VNONE)
